@@ -683,6 +683,328 @@ fn real_fs_exact_cases() -> (u64, Vec<Violation>) {
     (n, violations)
 }
 
+fn permute(items: &mut Vec<usize>, k: usize, out: &mut Vec<Vec<usize>>) {
+    if k == items.len() {
+        out.push(items.clone());
+        return;
+    }
+    for i in k..items.len() {
+        items.swap(k, i);
+        permute(items, k + 1, out);
+        items.swap(k, i);
+    }
+}
+
+fn snapshot(r: &Resources) -> BTreeMap<String, String> {
+    let mut got = BTreeMap::new();
+    for path in r.walk("") {
+        got.insert(path.to_string_lossy().replace('\\', "/"), r.get(&path).unwrap_or_default());
+    }
+    got
+}
+
+fn process_memory_with(files: &[(&str, &str)], config: &str, input: &str, output: Option<&str>, permutation: usize, resources: Option<Resources>) -> Result<(Resources, Vec<String>), String> {
+    let r = resources.unwrap_or_else(Resources::from_memory);
+    for (p, c) in files {
+        let _ = r.write(p, c);
+    }
+    let _ = r.write(".darklua.json", config);
+    let mut options = Options::new(input).with_configuration_at(".darklua.json");
+    if let Some(o) = output {
+        options = options.with_output(o);
+    }
+    let res = r.clone();
+    darklua_core::verif_hooks::set_walk_permutation(permutation);
+    let outcome = guarded(move || darklua_core::process(&res, options));
+    darklua_core::verif_hooks::set_walk_permutation(0);
+    let outcome = outcome.map_err(|p| format!("PANIC in process: {}", p))?;
+    let errors = match outcome {
+        Ok(tree) => tree.collect_errors().iter().map(|e| e.to_string()).collect(),
+        Err(e) => vec![format!("FATAL {}", e)],
+    };
+    Ok((r, errors))
+}
+
+/// files that require each other, processed with bundling: the bundle of a file does not depend on which files of the batch were
+/// already written (in place, every enumeration order), and is what an output directory receives
+fn dependent_files_cases() -> (u64, Vec<Violation>) {
+    let mut n = 0;
+    let mut violations = Vec::new();
+    let trees: &[&[(&str, &str)]] = &[
+        &[("src/a.lua", "local b = require('./b')\nreturn b\n"), ("src/b.lua", "-- b\nreturn 1\n")],
+        &[("src/a.lua", "local b = require('./b')\nreturn b\n"), ("src/b.lua", "local c = require('./d/c')\nreturn c\n"), ("src/d/c.lua", "do end\nreturn 3\n")],
+        &[("src/z.lua", "return require('./a')\n"), ("src/a.lua", "return require('./m')\n"), ("src/m.lua", "return {}\n")],
+    ];
+    for tree in trees {
+        for config in ["{rules: [{rule: 'append_text_comment', text: 'processed'}], bundle: {require_mode: 'path'}}", "{rules: ['remove_comments', 'remove_empty_do'], bundle: {require_mode: 'path'}}"] {
+            // reference: the same tree processed to an output directory
+            let reference = match process_memory_with(tree, config, "src", Some("out"), 0, None) {
+                Ok((r, e)) if e.is_empty() => snapshot(&r),
+                other => {
+                    violations.push(Violation { finding: None, summary: format!("the tree does not process to an output directory: {:?}", other.map(|(_, e)| e)), replay: json!({"kind": "dependent files", "config": config}) });
+                    continue;
+                }
+            };
+            for perm in 0..factorial(tree.len()) {
+                n += 1;
+                let (r, errors) = match process_memory_with(tree, config, "src", None, perm, None) {
+                    Ok(x) => x,
+                    Err(e) => {
+                        violations.push(Violation { finding: None, summary: e, replay: json!({"kind": "dependent files", "config": config, "permutation": perm}) });
+                        continue;
+                    }
+                };
+                let got = snapshot(&r);
+                let mut problems = Vec::new();
+                if !errors.is_empty() {
+                    problems.push(format!("errors: {:?}", errors));
+                }
+                for (p, _) in tree.iter() {
+                    let want = reference.get(&p.replacen("src/", "out/", 1));
+                    if got.get(*p) != want {
+                        problems.push(format!("{} processed in place is {:?}; processed to an output directory it is {:?}", p, got.get(*p), want));
+                    }
+                }
+                if !problems.is_empty() {
+                    let files: Vec<&str> = tree.iter().map(|(p, _)| *p).collect();
+                    // bug model of the known finding: every file is bundled from what the files it requires contain at that
+                    // moment, i.e. the batch behaves like single-file in-place runs, one after the other, in some order
+                    let mut explained = false;
+                    if errors.is_empty() {
+                        let mut order: Vec<usize> = (0..tree.len()).collect();
+                        let mut orders = Vec::new();
+                        permute(&mut order, 0, &mut orders);
+                        for o in orders {
+                            let r2 = Resources::from_memory();
+                            for (p, c) in tree.iter() {
+                                let _ = r2.write(p, c);
+                            }
+                            let mut ok = true;
+                            for i in &o {
+                                match process_memory_with(&[], config, tree[*i].0, None, 0, Some(r2.clone())) {
+                                    Ok((_, e)) if e.is_empty() => {}
+                                    _ => ok = false,
+                                }
+                            }
+                            if ok && snapshot(&r2) == got {
+                                explained = true;
+                                break;
+                            }
+                        }
+                    }
+                    violations.push(Violation {
+                        finding: if explained { Some("in-place-bundling-reads-files-already-rewritten".to_owned()) } else { None },
+                        summary: format!("{}\n--- files {:?} config {} walk permutation {}", problems.join("\n"), files, config, perm),
+                        replay: json!({"kind": "dependent files", "files": files, "config": config, "permutation": perm}),
+                    });
+                }
+            }
+        }
+    }
+    (n, violations)
+}
+
+/// choices that must not depend on hash order: several aliases for the same directory, repeated runs in one process
+fn alias_choice_cases() -> (u64, Vec<Violation>) {
+    let mut n = 0;
+    let mut violations = Vec::new();
+    let tree: &[(&str, &str)] = &[("src/main.lua", "local x = require(\"./packages/x\")\nlocal y = require(\"./packages/sub/y\")\nreturn x, y\n"), ("src/packages/x.lua", "return 1\n"), ("src/packages/sub/y.lua", "return 2\n")];
+    for config in [
+        "{rules: [{rule: 'convert_require', current: 'path', target: {name: 'path', sources: {'@pkg': 'src/packages', '@packages': 'src/packages', '@vendor': './src/packages', '@libs': 'src/packages/'}}}]}",
+        "{rules: [{rule: 'convert_require', current: 'path', target: {name: 'luau', aliases: {'@pkg': 'src/packages', '@packages': 'src/packages', '@vendor': './src/packages', '@sub': 'src/packages/sub', '@s2': 'src/packages/sub'}}}]}",
+    ] {
+        let mut seen: BTreeMap<String, usize> = BTreeMap::new();
+        let runs = 24;
+        for _ in 0..runs {
+            n += 1;
+            match process_memory_with(tree, config, "src", Some("out"), 0, None) {
+                Ok((r, errors)) => {
+                    let text = format!("{:?} {:?}", errors, r.get("out/main.lua").ok());
+                    *seen.entry(text).or_insert(0) += 1;
+                }
+                Err(e) => {
+                    *seen.entry(e).or_insert(0) += 1;
+                }
+            }
+        }
+        if seen.len() > 1 {
+            violations.push(Violation {
+                finding: None,
+                summary: format!("{} identical runs wrote {} different outputs for src/main.lua: {:?}\n--- config {}", runs, seen.len(), seen, config),
+                replay: json!({"kind": "alias choice", "config": config}),
+            });
+        }
+    }
+    (n, violations)
+}
+
+/// the output location lies inside the input, or the input does not exist
+fn nested_output_cases() -> (u64, Vec<Violation>) {
+    let mut n = 0;
+    let mut violations = Vec::new();
+    let config = "{generator: 'dense', rules: ['remove_comments']}";
+    // a second identical run writes nothing new
+    for (input, output) in [(".", "out"), ("./", "./out"), ("src", "src/out"), (".", "build/out")] {
+        n += 1;
+        let tree: &[(&str, &str)] = &[("src/a.lua", "-- comment\nreturn 'a'\n"), ("src/d/b.lua", "-- b\nreturn 'b'\n")];
+        let first = match process_memory_with(tree, config, input, Some(output), 0, None) {
+            Ok((r, e)) => (r, e),
+            Err(e) => {
+                violations.push(Violation { finding: None, summary: e, replay: json!({"kind": "nested output", "input": input, "output": output}) });
+                continue;
+            }
+        };
+        let after_first = snapshot(&first.0);
+        let second = process_memory_with(&[], config, input, Some(output), 0, Some(first.0.clone()));
+        let after_second = snapshot(&first.0);
+        let mut problems = Vec::new();
+        if !first.1.is_empty() {
+            problems.push(format!("first run: errors {:?}", first.1));
+        }
+        match second {
+            Ok((_, e)) if !e.is_empty() => problems.push(format!("second run: errors {:?}", e)),
+            Err(e) => problems.push(e),
+            _ => {}
+        }
+        if after_first != after_second {
+            let new: Vec<&String> = after_second.keys().filter(|k| !after_first.contains_key(*k)).collect();
+            let changed: Vec<&String> = after_first.keys().filter(|k| after_second.get(*k) != after_first.get(*k)).collect();
+            problems.push(format!("the second identical run wrote new files {:?} and changed {:?}", new, changed));
+        }
+        if !problems.is_empty() {
+            violations.push(Violation {
+                finding: None,
+                summary: format!("{}\n--- `process {} {}` run twice on {{src/a.lua, src/d/b.lua}}", problems.join("\n"), input, output),
+                replay: json!({"kind": "nested output", "input": input, "output": output}),
+            });
+        }
+    }
+    // an input file below the output location is not overwritten by the output of another input
+    {
+        n += 1;
+        let tree: &[(&str, &str)] = &[("src/x.lua", "-- top\nreturn 'top'\n"), ("src/sub/x.lua", "-- below\nreturn 'below'\n")];
+        if let Ok((r, errors)) = process_memory_with(tree, config, "src", Some("src/sub"), 0, None) {
+            let got = snapshot(&r);
+            // either the layout is refused, or src/sub/x.lua holds the output of src/x.lua and nothing is derived from the old src/sub/x.lua
+            let derived_from_below: Vec<&String> = got.iter().filter(|(k, v)| v.contains("below") && k.as_str() != "src/sub/x.lua").map(|(k, _)| k).collect();
+            if errors.is_empty() && (!derived_from_below.is_empty() || got.get("src/sub/x.lua").map(|t| t.contains("below")).unwrap_or(false)) {
+                violations.push(Violation {
+                    finding: None,
+                    summary: format!("`process src src/sub`: the input src/sub/x.lua lies in the output location, yet it was processed as an input (files derived from it: {:?}; src/sub/x.lua = {:?})", derived_from_below, got.get("src/sub/x.lua")),
+                    replay: json!({"kind": "nested output", "input": "src", "output": "src/sub"}),
+                });
+            }
+        }
+    }
+    // an input that does not exist is an error naming it
+    for (input, output) in [("src/mian.lua", Some("out/main.lua")), ("src/mian.lua", None), ("scr", Some("out")), ("src/missing/", None)] {
+        n += 1;
+        let tree: &[(&str, &str)] = &[("src/main.lua", "return 1\n")];
+        match process_memory_with(tree, config, input, output, 0, None) {
+            Ok((_, errors)) => {
+                let name = input.trim_end_matches('/');
+                if !errors.iter().any(|e| e.contains(name)) {
+                    violations.push(Violation {
+                        finding: None,
+                        summary: format!("the input {:?} does not exist, but the run reports {:?}", input, errors),
+                        replay: json!({"kind": "missing input", "input": input, "output": output}),
+                    });
+                }
+            }
+            Err(e) => violations.push(Violation { finding: None, summary: e, replay: json!({"kind": "missing input", "input": input}) }),
+        }
+    }
+    (n, violations)
+}
+
+/// real directory: destinations that cannot be written are reported with the file they belong to, and never counted as written
+fn real_fs_write_failure_cases() -> (u64, Vec<Violation>) {
+    use std::fs;
+    let mut n = 0;
+    let mut violations = Vec::new();
+    // (a) the directory of two destinations is occupied by a regular file
+    {
+        n += 1;
+        if let Ok(dir) = tempfile::tempdir() {
+            let root = dir.path();
+            let src = root.join("src");
+            fs::create_dir_all(src.join("sub")).unwrap();
+            fs::write(src.join("ok.lua"), "return 0\n").unwrap();
+            fs::write(src.join("sub").join("one.lua"), "return 1\n").unwrap();
+            fs::write(src.join("sub").join("two.lua"), "return 2\n").unwrap();
+            fs::write(root.join("cfg.json5"), "{rules: []}").unwrap();
+            let out = root.join("out");
+            fs::create_dir_all(&out).unwrap();
+            fs::write(out.join("sub"), "a regular file").unwrap();
+            let resources = Resources::from_file_system();
+            let options = Options::new(&src).with_configuration_at(root.join("cfg.json5")).with_output(&out);
+            match guarded(move || darklua_core::process(&resources, options)) {
+                Err(p) => violations.push(Violation { finding: None, summary: format!("PANIC: {}", p), replay: json!({"kind": "write failure", "case": "directory occupied"}) }),
+                Ok(outcome) => {
+                    let errors: Vec<String> = match &outcome {
+                        Ok(tree) => tree.collect_errors().iter().map(|e| e.to_string()).collect(),
+                        Err(e) => vec![format!("FATAL {}", e)],
+                    };
+                    let mut problems = Vec::new();
+                    for name in ["one.lua", "two.lua"] {
+                        if errors.iter().filter(|e| e.contains(name)).count() != 1 {
+                            problems.push(format!("{} is not named by exactly one error", name));
+                        }
+                    }
+                    if !out.join("ok.lua").exists() {
+                        problems.push("ok.lua was not written".to_owned());
+                    }
+                    if !problems.is_empty() {
+                        violations.push(Violation {
+                            finding: None,
+                            summary: format!("{}\n--- out/sub is a regular file, src/sub/one.lua and src/sub/two.lua cannot be written; errors: {:?}", problems.join("\n"), errors),
+                            replay: json!({"kind": "write failure", "case": "directory occupied"}),
+                        });
+                    }
+                }
+            }
+        }
+    }
+    // (b) a destination on a full device (a symbolic link to /dev/full): small and large files
+    if std::path::Path::new("/dev/full").exists() {
+        for size in [1usize, 20_000] {
+            n += 1;
+            if let Ok(dir) = tempfile::tempdir() {
+                let root = dir.path();
+                let src = root.join("src");
+                fs::create_dir_all(&src).unwrap();
+                fs::write(src.join("a.lua"), format!("return '{}'\n", "a".repeat(size))).unwrap();
+                fs::write(src.join("b.lua"), "return 'b'\n").unwrap();
+                fs::write(root.join("cfg.json5"), "{rules: []}").unwrap();
+                let out = root.join("out");
+                fs::create_dir_all(&out).unwrap();
+                if std::os::unix::fs::symlink("/dev/full", out.join("a.lua")).is_err() {
+                    continue;
+                }
+                let resources = Resources::from_file_system();
+                let options = Options::new(&src).with_configuration_at(root.join("cfg.json5")).with_output(&out);
+                match guarded(move || darklua_core::process(&resources, options)) {
+                    Err(p) => violations.push(Violation { finding: None, summary: format!("PANIC: {}", p), replay: json!({"kind": "write failure", "case": "full device"}) }),
+                    Ok(outcome) => {
+                        let errors: Vec<String> = match &outcome {
+                            Ok(tree) => tree.collect_errors().iter().map(|e| e.to_string()).collect(),
+                            Err(e) => vec![format!("FATAL {}", e)],
+                        };
+                        if !errors.iter().any(|e| e.contains("a.lua")) {
+                            violations.push(Violation {
+                                finding: None,
+                                summary: format!("out/a.lua is on a full device (no byte can be written), yet no error names a.lua ({} bytes of content); errors: {:?}", size, errors),
+                                replay: json!({"kind": "write failure", "case": "full device", "size": size}),
+                            });
+                        }
+                    }
+                }
+            }
+        }
+    }
+    (n, violations)
+}
+
 pub fn run_check(tier: Tier) -> Report {
     let mut report = Report::new("C11", "fault_enumeration", tier);
     report.rule = "trees = every set of 1..3 (4 in thorough) Lua files over {a.lua, b.luau, d/c.lua, `d/e f.lua`, d.v2/g.lua, ü.lua} next to non-Lua files; EVERY assignment \
@@ -756,6 +1078,17 @@ pub fn run_check(tier: Tier) -> Report {
     report.distinct_nontrivial += n;
     report.violations.extend(v);
     report.set("isolation_cases", n);
+    for (name, (n, v)) in [
+        ("dependent_files_cases", dependent_files_cases()),
+        ("alias_choice_cases", alias_choice_cases()),
+        ("nested_output_and_missing_input_cases", nested_output_cases()),
+        ("real_file_system_write_failure_cases", real_fs_write_failure_cases()),
+    ] {
+        report.evaluations += n;
+        report.distinct_nontrivial += n;
+        report.violations.extend(v);
+        report.set(name, n);
+    }
     report.set("cases", cases.len() as u64);
     report.sample(json!({"files": ["a.lua", "d/e f.lua"], "faults": ["Syntax", "Healthy"], "io": "ExistingDir", "fail_fast": false, "permutations": 120}));
     report
